@@ -157,29 +157,46 @@ Proof.
     destruct (N.testbit e i); [reflexivity|]. apply IH. lia.
 Qed.
 
-(* ANY loop whose body, in a state that stands for position [i] ([mk i]: the iterator, or the bare cursor),
-   leaves with [r i] and the state of [i + 1] when bit [i] is set, goes on with the state of [i + 1] when
-   it is not, and breaks at the end of the table, performs the scan. *)
-Lemma scan_loop {St R} (step : St -> option (lctl St (St * R))) (mk : N -> St) (r : N -> R) e :
-  (forall i, i < 12 ->
-     step (mk i) = Some (if N.testbit e i then LRet (mk (i + 1), r i) else LNext (mk (i + 1)))) ->
-  step (mk 12) = Some (LBreak (mk 12)) ->
+(* ANY loop whose body, in a state that stands for position [i] ([mk i]: the iterator, the bare cursor, a tuple
+   with a result variable ..), leaves the loop with [hit i] (a `return` or a `break`, carrying whatever the code
+   carries) when bit [i] is set, goes on with the state of [i + 1] when it is not, and leaves with [endv] at the end
+   of the table, performs the scan.  [while_fuel] (a loop with a `return` inside) and [while_fuel0] (none). *)
+Definition lctl_is_next {S R} (c : lctl S R) : bool := match c with LNext _ => true | _ => false end.
+Definition lctl_stop {S R} (c : lctl S R) : S + R :=
+  match c with LRet r => inr r | LBreak s => inl s | LNext s => inl s end.
+
+Lemma scan_loop {St X} (step : St -> option (lctl St X)) (mk : N -> St) (hit : N -> lctl St X) (endv : lctl St X) e :
+  (forall i, i < 12 -> step (mk i) = Some (if N.testbit e i then hit i else LNext (mk (i + 1)))) ->
+  (forall i, lctl_is_next (hit i) = false) ->
+  step (mk 12) = Some endv ->
+  lctl_is_next endv = false ->
   forall n i wf, i + N.of_nat n = 12 -> (n < wf)%nat ->
   while_fuel wf step (mk i)
-  = Some (match e_find e n i with
-          | Some j => inr (mk (j + 1), r j)
-          | None => inl (mk 12)
-          end).
+  = Some (lctl_stop (match e_find e n i with Some j => hit j | None => endv end)).
+Proof.
+  intros Hstep Hhit Hend Hendv.
+  induction n as [|k IH]; intros i wf Hi Hwf; (destruct wf as [|wf]; [lia|]); cbn [while_fuel e_find].
+  - replace i with 12 by lia. rewrite Hend. destruct endv; try discriminate; reflexivity.
+  - rewrite Hstep by lia. destruct (N.testbit e i); [|apply IH; lia].
+    specialize (Hhit i). destruct (hit i); try discriminate; reflexivity.
+Qed.
+
+Lemma scan_loop0 {St} (step : St -> option (bctl St)) (mk : N -> St) (hit : N -> St) (endv : St) e :
+  (forall i, i < 12 -> step (mk i) = Some (if N.testbit e i then BBreak (hit i) else BNext (mk (i + 1)))) ->
+  step (mk 12) = Some (BBreak endv) ->
+  forall n i wf, i + N.of_nat n = 12 -> (n < wf)%nat ->
+  while_fuel0 wf step (mk i)
+  = Some (match e_find e n i with Some j => hit j | None => endv end).
 Proof.
   intros Hstep Hend.
-  induction n as [|k IH]; intros i wf Hi Hwf; (destruct wf as [|wf]; [lia|]); cbn [while_fuel e_find].
+  induction n as [|k IH]; intros i wf Hi Hwf; (destruct wf as [|wf]; [lia|]); cbn [while_fuel0 e_find].
   - replace i with 12 by lia. rewrite Hend. reflexivity.
   - rewrite Hstep by lia. destruct (N.testbit e i); [reflexivity|]. apply IH; lia.
 Qed.
 
-(* normalise a translated loop body applied to the state of position [j] (hypothesis [j < 12]) *)
+(* normalise a translated loop body applied to the state of a position *)
 Ltac scan_norm :=
-  cbv beta zeta;
+  cbv beta iota zeta;
   cbn [ei_index ei_effects set_ei_index fst snd];
   rewrite ?len_metadata;
   unfold eff_new, eff_f0;
@@ -191,41 +208,63 @@ Ltac scan_norm :=
   rewrite ?e_contains_bit, ?land_bit_ne0, ?land_bit_ne0', ?land_bit_eq, ?land_bit_eq', ?land_bit_eq0, ?land_bit_eq0',
           ?shr_bit_ne0, ?shr_bit_eq1.
 
+(* the ways of asking "is position j inside the table", for j < 12 *)
+Lemma in_table_tests j : j < 12 ->
+  (j <? 12) = true /\ (12 <=? j) = false /\ (j =? 12) = false /\ (12 =? j) = false /\ (12 <? j) = false /\ (j <=? 11) = true.
+Proof.
+  intro H. repeat split;
+    first [ apply N.ltb_lt; lia | apply N.leb_gt; lia | apply N.eqb_neq; lia | apply N.ltb_ge; lia | apply N.leb_le; lia ].
+Qed.
+
+(* side goal [forall j, j < 12 -> step (mk j) = Some (if N.testbit e j then ?hit j else <next> (mk (j + 1)))] *)
+Ltac scan_step_side step e :=
+  let j := fresh "j" in let Hj := fresh "Hj" in
+  intros j Hj; unfold step; scan_norm;
+  let T := fresh "T" in
+  destruct (in_table_tests j Hj) as (?T & ?T & ?T & ?T & ?T & ?T);
+  repeat match goal with
+         | H : _ = true |- _ => rewrite !H
+         | H : _ = false |- _ => rewrite !H
+         end;
+  cbn [negb];
+  scan_norm;
+  destruct (N.testbit e j); cbn [negb]; reflexivity.
+
+Ltac scan_side_of L tac :=
+  match type of L with
+  | ?P -> _ => let H := fresh "Hside" in assert (H : P); [ tac | specialize (L H); clear H ]
+  end.
+
 (* goal: [<translated next> (mkEffIter i e) = e_next item e n i] under [Hi : i + N.of_nat n = 12] *)
 Ltac scan_next e n i Hi :=
   cbv zeta; cbn [ei_index ei_effects set_ei_index];
-  match goal with
+  let L := fresh "L" in
+  lazymatch goal with
   | |- context [while_fuel ?wf ?f ?s] =>
       let mkp := eval pattern i in s in
-      match mkp with
+      lazymatch mkp with
       | ?mk _ =>
           let step := fresh "step" in
           set (step := f);
-          let L := fresh "L" in
-          epose proof (scan_loop step mk _ e) as L;
-          match type of L with
-          | ?P -> _ =>
-              let H := fresh "Hstep" in
-              assert (H : P);
-              [ let j := fresh "j" in let Hj := fresh "Hj" in
-                intros j Hj; unfold step; scan_norm;
-                let Hb := fresh "Hb" in
-                pose proof Hj as Hb; apply N.ltb_lt in Hb; rewrite ?Hb;
-                scan_norm;
-                destruct (N.testbit e j); cbn [negb]; reflexivity
-              | specialize (L H); clear H ]
-          end;
-          match type of L with
-          | ?P -> _ =>
-              let H := fresh "Hend" in
-              assert (H : P);
-              [ unfold step; scan_norm; reflexivity
-              | specialize (L H); clear H ]
-          end;
-          specialize (L n i wf Hi);
-          cbv beta in L;
-          rewrite L by (cbn; lia);
-          clear L
+          epose proof (scan_loop step mk _ _ e) as L;
+          scan_side_of L ltac:(scan_step_side step e);
+          scan_side_of L ltac:(intros; reflexivity);
+          scan_side_of L ltac:(unfold step; scan_norm; reflexivity);
+          scan_side_of L ltac:(reflexivity);
+          specialize (L n i wf Hi); cbv beta in L;
+          rewrite L by (cbn; lia); clear L
+      end
+  | |- context [while_fuel0 ?wf ?f ?s] =>
+      let mkp := eval pattern i in s in
+      lazymatch mkp with
+      | ?mk _ =>
+          let step := fresh "step" in
+          set (step := f);
+          epose proof (scan_loop0 step mk _ _ e) as L;
+          scan_side_of L ltac:(scan_step_side step e);
+          scan_side_of L ltac:(unfold step; scan_norm; reflexivity);
+          specialize (L n i wf Hi); cbv beta in L;
+          rewrite L by (cbn; lia); clear L
       end
   end;
   rewrite (e_next_find _ e n i Hi);
@@ -234,7 +273,7 @@ Ltac scan_next e n i Hi :=
   let j := fresh "j" in
   destruct (e_find e n i) as [j|];
   [ specialize (Hr j eq_refl) | clear Hr ];
-  cbv beta iota zeta;
+  cbv beta iota zeta delta [lctl_stop];
   cbn [ei_index ei_effects set_ei_index fst snd];
   unfold eff_new, eff_f0;
   rewrite ?cshl_u16_one by lia;
